@@ -147,6 +147,10 @@ func (i *NetflowV5) run() {
 		netflowV5UDPCh <- NetflowV5UDPMsg{raddr, b[:n]}
 	}
 
+	// the receive loop is the only sender: closing the channel here, and not in
+	// shutdown, can not race with a send that is still in progress
+	close(netflowV5UDPCh)
+
 }
 
 func (i *NetflowV5) shutdown() {
@@ -160,9 +164,8 @@ func (i *NetflowV5) shutdown() {
 	logger.Println("stopping netflow v5 service gracefully ...")
 	time.Sleep(1 * time.Second)
 
-	// logging and close UDP channel
+	// logging
 	logger.Println("netflow v5 has been shutdown")
-	close(netflowV5UDPCh)
 }
 
 func (i *NetflowV5) netflowV5Worker(wQuit chan struct{}) {
